@@ -262,6 +262,7 @@ let () =
           | "sens" -> cmd_sens toks
           | "sim" -> cmd_sim toks
           | "lsim" -> Drv_zlin.cmd_lsim toks
+          | "lineage" -> Drv_zlin.cmd_lineage toks
           | "dispatch" -> cmd_dispatch toks
           | "delaydraw" -> cmd_delaydraw toks
           | "c15align" -> cmd_c15align toks
